@@ -126,6 +126,46 @@ def h_route(ctx, shape, src, dst, symmetric=True):
               all(m.graph.has_edge(a, b) for a, b in zip(rev[:-1], rev[1:])), info=dict(info, reverse=[e.uid for e in rev]))
 
 
+def h_route_after_split(ctx, shape, src, dst, long_link):
+    """the same meshes taken through the real add_missing_elements_in_network, one link being long enough to be split
+    (symbolic length up to 500 km; the number of spans forks): every edge leaving a fibre still weighs that fibre's length,
+    and the route returned is the shortest by total fibre length"""
+    from gnpy.core.elements import Fiber
+    from gnpy.core.network import add_missing_elements_in_network
+    from gnpy.topology.request import compute_path_dsjctn
+    m = build_mesh(ctx, shape, symmetric_lengths=True, with_oms=False, long_links={frozenset(long_link): 500}, hi_km=140)
+    add_missing_elements_in_network(m.graph, m.eqpt)
+    info = dict(shape=shape, src=src, dst=dst, long_link=list(long_link))
+    bad = []
+    for a, b, w in m.graph.edges(data='weight'):
+        want = a.params.length if isinstance(a, Fiber) else 0.01
+        ok = bool(eq(w, want)) if (is_symbolic(w) or is_symbolic(want)) else abs(w - want) < 1e-9
+        if not ok:
+            bad.append((a.uid, b.uid, str(w)))
+    ctx.prove('every edge leaving a fibre weighs that fibre length (others 0.01)', not bad, info=dict(info, bad_edges=bad[:4]))
+    rq = request('r1', src, dst)
+    got = compute_path_dsjctn(m.graph, m.eqpt, [rq], [])[0]
+    ids = [e.uid for e in got]
+    info = dict(info, got=ids)
+    ctx.prove('a loop-free route between the transceivers over existing links', bool(got) and ids[0] == f'trx {src}' and
+              ids[-1] == f'trx {dst}' and len(set(ids)) == len(ids) and all(m.graph.has_edge(a, b) for a, b in zip(got[:-1], got[1:])), info=info)
+    if not got:
+        return
+    got_sites = [u.split(' ')[1] for u in ids if u.startswith('roadm ')]
+    routes = site_paths(m, src, dst)
+    ctx.prove('is one of the simple routes of the topology', got_sites in routes, info=info)
+    if got_sites not in routes:
+        return
+    fibre_total = 0
+    for e in got:
+        if isinstance(e, Fiber):
+            fibre_total = fibre_total + e.params.length
+    ctx.prove('fibre spans of the route add up to the original link lengths', eq(fibre_total, fibre_km(m, got_sites) * 1e3), info=info)
+    for alt in routes:
+        if alt != got_sites:
+            ctx.prove('no route is shorter', le(fibre_km(m, got_sites) * 1e3, fibre_km(m, alt) * 1e3 + SLACK_M), info=dict(info, alternative=alt))
+
+
 def jobs(tier):
     js = []
     shapes = ['line3', 'triangle', 'ring4', 'square+tail'] if tier == 'quick' else list(SHAPES)
@@ -137,4 +177,11 @@ def jobs(tier):
         for s, d in pairs:
             js.append(dict(name=f'H11:route:{sh}:{s}->{d}', fn='h_route', params=dict(shape=sh, src=s, dst=d, symmetric=(tier == 'quick')),
                            witness_every=5, budget_s=150 if tier == 'quick' else 600, opts=dict(no_ties=True), cost=len(SHAPES[sh][1]) ** 3))
+    for sh, s, d in (('triangle', 'A', 'C'), ('ring4', 'A', 'C')) + ((('square+tail', 'A', 'D'),) if tier != 'quick' else ()):
+        for link in SHAPES[sh][1]:
+            js.append(dict(name=f'H11b:route_after_split:{sh}:{s}->{d}:long={link[0]}{link[1]}', fn='h_route_after_split',
+                           params=dict(shape=sh, src=s, dst=d, long_link=link), witness_every=5, budget_s=150 if tier == 'quick' else 600,
+                           opts=dict(no_ties=True), cost=30))
+    from harness import c12
+    js += c12.include_jobs(tier, 'H11c')
     return js
